@@ -6,7 +6,7 @@
      coordinates of one point); used to state the streaming invariant;
    * the COLUMN model ([cst], [crefill], [cget], [crun]): literally what the code does -- the
      cache [cached_xs] is a list of per-dimension vectors, the loop test looks at the length
-     of dimension 0 only, refilling is [torch.cat([x, n]) for x, n in zip(cached_xs, new)]
+     of dimension 0 only (IndexError = None if there is no dimension), refilling is [torch.cat([x, n]) for x, n in zip(cached_xs, new)]
      (zip truncates), the batch is [x[:size]] and the remainder [x[size:]] per dimension.
 
    proofs/C14_batch.v proves the invariant on the row model and that the column model run on
@@ -82,12 +82,16 @@ Section ColModel.
   Definition cinit : cst := {| ccached := cdraw 0; ctaken := 1 |}.
 
   Fixpoint crefill (fuel size : nat) (s : cst) : option cst :=
-    if Nat.ltb (length (hd [] (ccached s))) size then
-      match fuel with
-      | O => None
-      | S f => crefill f size {| ccached := zip_app (ccached s) (cdraw (ctaken s)); ctaken := S (ctaken s) |}
-      end
-    else Some s.
+    match ccached s with
+    | [] => None                      (* self.cached_xs[0]: IndexError *)
+    | c0 :: _ =>
+        if Nat.ltb (length c0) size then
+          match fuel with
+          | O => None
+          | S f => crefill f size {| ccached := zip_app (ccached s) (cdraw (ctaken s)); ctaken := S (ctaken s) |}
+          end
+        else Some s
+    end.
 
   Definition cget (fuel size : nat) (s : cst) : option (list (list A) * cst) :=
     match crefill fuel size s with
